@@ -7,7 +7,9 @@ E1 = "E1: real C++ of /repo -> LLVM IR (clang 14, container model ministl) -> C 
 CLAIMS = {
  # id: (category, level text, design ref, level note, technique)
  'C01': ('model_checking', 'Bounded symbolic checking of the real VM step against a reference semantics for every opcode and all operand values (one inductive step from an arbitrary invariant state); end-to-end composition with the compiler links is argued in DESIGN.md, not solved.', 'DESIGN.md 3 C01', 'WF program, Inv state, values below 2^31-1; ministl container model; bounds in evidence', 'CBMC symbolic execution of VM::executeSingle from a symbolic state vs reference step function'),
+ 'C02': ('model_checking', 'Per-stage bounded symbolic execution of the real front-end code with every library precondition, pointer check and unwinding bound as assertion; the parser is covered function by function with contract stubs (any token stream length).', 'DESIGN.md 3 C02', 'stage decomposition with interface invariants; LR generator on symbolic patterns, flex runtime and allocation failure outside', 'CBMC memory-safety/termination assertions over IR-derived C of parse.cpp functions (modular, contract stubs) and other stages'),
  'C03': ('model_checking', 'Inductive invariant (stack types against the annotated program) preserved by one symbolic step of the real VM, with all container preconditions and pointer checks as assertions; bounded array sizes, unbounded execution length.', 'DESIGN.md 3 C03', 'WF assumed in part (i); ministl; bounds in evidence', 'CBMC one-step induction over VM::executeSingle with WF type system as assumption'),
+ 'C04': ('model_checking', 'Modular (assume/guarantee) symbolic check of every grammar function of the real recursive-descent parser against the LL(1) row it must implement, callees as nondeterministic contract stubs, symbolic token window at a symbolic cursor: sound, complete, progress. Unbounded input length by the standard composition theorem.', 'DESIGN.md 3 C04', 'reference LL(1) tables from the fixed grammar spec; composition theorem is an argument; static rules are generator obligations', 'CBMC per-function check of parse.cpp against generated LL(1) tables with contract stubs (ir2c --stub)'),
  'C05': ('model_checking', '2-safety lemma (twin machines) and frame lemma for every debugger method, each one symbolic call from an arbitrary invariant state; histories of any length follow by induction.', 'DESIGN.md 3 C05', 'Inv_tab/Inv_en assumed in the pre-state and re-established; composition argument', 'CBMC 2-safety self-composition of VM::executeSingle + per-method frame conditions'),
  'C06': ('model_checking', 'Stop rule, current-location report and enabled-set bookkeeping checked per method from arbitrary invariant states against a ghost model; execute() against a shadow run.', 'DESIGN.md 3 C06', 'ghost model of the enabled set; bounded fuel for execute()', 'CBMC one-step checks of VM debugger API against a ghost enabled-set model'),
  'C17': ('model_checking', 'reset() from an arbitrary invariant state equals a freshly constructed machine field by field; HALT step is the identity.', 'DESIGN.md 3 C17', 'Inv, Inv_tab, Inv_en in the pre-state', 'CBMC field-wise equality of VM::reset() result with VM(original program)'),
